@@ -206,6 +206,8 @@ TN_TYPES = [
     ("(int32, int32) -> int32", "addq"), ("((int32) -> int32, int32)", "(idq, 1)"), ("dyn Tq", "dq"),
     ("Oq[int32]", "Sq(1)"), ("Oq[bool]", "Sq(true)"), ("Oq[Oq[int32]]", "Sq(Sq(1))"), ("Oq[Bq[int32]]", "Sq(Bq { v: 1 })"),
     ("((int32, int32), int32, int32)", "((1, 2), 3, 4)"), ("((int32, int32, int32), int32)", "((1, 2, 3), 4)"), ("(int32, (int32, int32), int32)", "(1, (2, 3), 4)"),
+    # function types that differ only in where an (empty) parameter list sits
+    ("() -> int32", "sevq"), ("() -> (int32) -> int32", "mkfq"), ("(() -> int32) -> int32", "appq"), ("(int32) -> () -> int32", "constq"), ("() -> () -> int32", "mk0q"), ("(unit) -> int32", "unitq"),
 ]
 
 
@@ -215,13 +217,14 @@ TN_FAMILIES = [
     ["Bq[int32]", "Bq[bool]", "Bq[(int32, bool)]", "Bq[[int32; 2]]", "Bq[Bq[int32]]"], ["(int32) -> int32", "(int32) -> bool", "(int32, int32) -> int32"], ["int32", "bool", "string", "Pq", "Eq", "dyn Tq"],
     ["((int32, int32), int32, int32)", "((int32, int32, int32), int32)", "(int32, (int32, int32), int32)"],
     ["Oq[int32]", "Oq[bool]", "Oq[Oq[int32]]", "Oq[Bq[int32]]"],
+    ["() -> (int32) -> int32", "(() -> int32) -> int32", "(int32) -> () -> int32", "() -> () -> int32"], ["() -> int32", "(unit) -> int32", "(int32) -> int32"],
 ]
 
 
 def typename_program(rng, n):
     """n functions, each taking a tuple of two types drawn from structurally confusable types: every distinct type must get its own Go name"""
     head = ("struct Bq[T] { v: T }\nenum Oq[T] { Nq, Sq(T) }\nstruct Pq { a: int32 }\nenum Eq { Eqa, Eqb(int32) }\ntrait Tq { fn tq(Self) -> int32; }\nimpl Tq for int32 { fn tq(self: int32) -> int32 { self } }\n"
-            "fn idq(x: int32) -> int32 { x }\nfn posq(x: int32) -> bool { x > 0 }\nfn addq(x: int32, y: int32) -> int32 { x + y }\n"
+            "fn idq(x: int32) -> int32 { x }\nfn sevq() -> int32 { 7 }\nfn mkfq() -> (int32) -> int32 { idq }\nfn appq(g: () -> int32) -> int32 { g() }\nfn constq(x: int32) -> () -> int32 { sevq }\nfn mk0q() -> () -> int32 { sevq }\nfn unitq(u: unit) -> int32 { 1 }\nfn posq(x: int32) -> bool { x > 0 }\nfn addq(x: int32, y: int32) -> int32 { x + y }\n"
             "fn mkvi() -> Vec[int32] { vec_new() }\nfn mkvb() -> Vec[bool] { vec_new() }\nfn mkva2() -> Vec[[int32; 2]] { vec_new() }\nfn mkva3() -> Vec[[int32; 3]] { vec_new() }\nfn mkvv() -> Vec[Vec[int32]] { vec_new() }\n")
     fns, calls = [], ["    let dq: dyn Tq = 5;"]
     # half of the functions come in pairs that differ in ONE component by a sibling type (same shape, other length /
@@ -283,6 +286,8 @@ def typename_stage(run, wits, broken):
 
     rng = run.sub_rng("c19-typenames")
     progs = [typename_program(rng, rng.randint(4, 10)) for _ in range(30 if run.tier == "quick" else 500)]
+    for fixed_ in ("tuple_arity", "fn_arity"):  # minimized programs of repaired collisions run first
+        progs.insert(0, open(os.path.join(vlib.VERIF, "corpus", "C19", fixed_, "main.gom")).read())
     root, paths = semrun.write_programs("c19tn", progs)
     res = vlib.run_harness("compile", [{"path": p_, "dumps": ["go_dbg"], "timeout_ms": 20000} for p_ in paths], shards=vlib.NCPU)
     st = {"programs": len(progs), "accepted": 0, "clean": 0}
